@@ -14,7 +14,7 @@ import (
 // output-file contract.
 func CheckC12(t Target, src *choice.Src, st *Stats) *Violation {
 	var w *World
-	fam := src.Draw("c12.family", 12)
+	fam := src.Draw("c12.family", 13)
 	name := ""
 	switch fam {
 	case 0, 1:
@@ -68,6 +68,9 @@ func CheckC12(t Target, src *choice.Src, st *Stats) *Violation {
 	case 10:
 		name = "many-files"
 		w = manyFilesWorld(src)
+	case 12:
+		name = "merge-keys"
+		w = mergeKeyWorld(src)
 	case 9:
 		name = "error-read-faults"
 		w = GenWorld(src, WOpts{Flags: true, LayoutFault: true, Defects: src.Bool("def")})
@@ -152,6 +155,52 @@ func longName(src *choice.Src, n int) string {
 		sb.WriteByte(alphabet[src.Draw("ln", len(alphabet))])
 	}
 	return sb.String()
+}
+
+// mergeKeyWorld: anchors, aliases and YAML merge keys ("<<") in the schema positions of a
+// configuration: a mapping that merges itself, mutual merges, and chains in which every mapping merges
+// its predecessor twice (linear to write, exponential to expand naively). The YAML library refuses or
+// bounds all of these; whatever looks at the document before or besides it has to as well.
+func mergeKeyWorld(src *choice.Src) *World {
+	w := &World{OutKind: "file", Out: "gen.go", Class: "merge-keys"}
+	var sb strings.Builder
+	n := src.Range("mk.n", 2, 60)
+	where := src.Draw("mk.where", 4)
+	switch src.Draw("mk.kind", 5) {
+	case 0: // self merge
+		switch where {
+		case 0:
+			sb.WriteString("services:\n  s: &s {todo: true, <<: *s}\n")
+		case 1:
+			sb.WriteString("meta: &m\n  pkg: main\n  <<: *m\n")
+		case 2:
+			sb.WriteString("services: &all\n  a: {todo: true}\n  <<: *all\n")
+		default:
+			sb.WriteString("&root\nparameters: {a: 1}\n<<: *root\n")
+		}
+	case 1: // every mapping merges its predecessor twice
+		sb.WriteString("services:\n  s0: &s0 {todo: true}\n")
+		for i := 1; i <= n; i++ {
+			fmt.Fprintf(&sb, "  s%d: &s%d {<<: [*s%d, *s%d]}\n", i, i, i-1, i-1)
+		}
+	case 2: // the same, below meta / parameters
+		sb.WriteString("parameters:\n  p0: &p0 {a: 1}\n")
+		for i := 1; i <= n; i++ {
+			fmt.Fprintf(&sb, "  p%d: &p%d {<<: *p%d, k%d: {<<: *p%d}}\n", i, i, i-1, i, i-1)
+		}
+	case 3: // merge of a sequence of aliases, of scalars, of nulls
+		sb.WriteString("services:\n  base: &b {value: \"pkg.V\"}\n  x: {<<: [*b, *b, *b], tags: [t]}\n  y: {<<: ~}\n  z: {<<: 5}\n  w: {<<: [1, [*b]]}\n")
+	case 4: // an ordinary, legal use: shared defaults merged into several services
+		sb.WriteString("services:\n  defaults: &d {constructor: \"pkg.New\", tags: [t]}\n")
+		for i := 0; i < n%7+1; i++ {
+			fmt.Fprintf(&sb, "  svc%d: {<<: *d, arguments: [%d]}\n", i, i)
+		}
+		w.Class = "merge-keys-legal"
+	}
+	w.Files = []InFile{{Path: "conf/merge.yaml", Content: sb.String()}}
+	w.Patterns = []string{"conf/*.yaml"}
+	w.MapSeed, w.ListSeed = seed64(src, "mapseed"), seed64(src, "listseed")
+	return w
 }
 
 // pathologicalWorld: very long identifiers, long file names, glob meta characters in file
